@@ -33,8 +33,11 @@ unsigned g_gc_calls;
 void c_gc_call(ldb_t *db)
 __CPROVER_requires(db == g_db && g_held)
 /* obligation on every caller: only after the edit that makes files obsolete is durable (ldb_versions_apply OK) or right after recovery */
-__CPROVER_requires(g_gc_allowed)
+__CPROVER_requires(g_gc_allowed || db->bg_error != LDB_OK)
 __CPROVER_assigns(DBGC_GHOST, g_gc_calls)
-__CPROVER_ensures(g_held)
+__CPROVER_ensures(g_held && g_locks - __CPROVER_old(g_locks) == g_unlocks - __CPROVER_old(g_unlocks))
+/* observable effect for callers: without a latched error the live set was really computed (the collection ran) */
+__CPROVER_ensures(db->bg_error == LDB_OK ==> (g_copied_pending && g_added_versions))
+__CPROVER_ensures(db->bg_error != LDB_OK ==> (g_copied_pending == __CPROVER_old(g_copied_pending) && g_removed_total == __CPROVER_old(g_removed_total)))
 ;
 #endif
